@@ -419,7 +419,7 @@ def install(E: Any) -> None:
         ty = obj.ty
         k = self.coerce(self.expr(n.args[0], st), ty.key)
         has, get = self.pre.mapf(ty, "has"), self.pre.mapf(ty, "get")
-        if len(n.args) > 1:
+        if len(n.args) > 1 and not (isinstance(n.args[1], ast.Constant) and n.args[1].value is None and not isinstance(ty.val, OptTy)):
             d = self.expr(n.args[1], st)
             if getattr(d, "empty_lit", False) and ty.val == ANY:
                 d = V(self.seq_empty(SeqTy(STR)).t, SeqTy(STR))
